@@ -43,12 +43,15 @@ Proof. exact C18_addval_lemma. Qed.
 Print Assumptions C18_addval.
 
 (* ---------------------------------------------------------------------- *)
-(* (2) cfg_opt_setnstr(opt, value, index) : requests =                     *)
-(*       [realloc, calloc  if index >= nvalues]  then  [strdup if value]   *)
-(*     DOCUMENTED PARTIAL EFFECT (the one place where Failed is not        *)
-(*     benign): when index >= nvalues and the strdup (request 3) fails,    *)
-(*     the call returns CFG_FAIL but the value list has already grown by   *)
-(*     one entry whose string is NULL.                                     *)
+(* (2) cfg_opt_setnstr(opt, value, index) : requests, in this order,       *)
+(*       [strdup if value]  then  [realloc, calloc  if index >= nvalues]   *)
+(*     The copy is made FIRST, cfg_opt_getval afterwards; when getval      *)
+(*     fails the copy is freed again (it is not live in h', by HeapOK).    *)
+(*     Failed is benign for EVERY fault index: the value list is           *)
+(*     unchanged (no appended NULL entry any more).  The only partial      *)
+(*     effect left is that of cfg_addval when its calloc fails (k = 3 with *)
+(*     a value, k = 2 without): the pointer array may have been moved /    *)
+(*     grown (spare capacity), nvalues and the values are unchanged.       *)
 (* ---------------------------------------------------------------------- *)
 Theorem C18_setnstr : forall h g k value index,
   Sep h (cells_gopt g) ->
@@ -57,8 +60,7 @@ Theorem C18_setnstr : forall h g k value index,
   exists h' g' out,
     run (cfg_opt_setnstr (rec_of_gopt g) value index) h k = Ok (rec_of_gopt g', out) (mkst h' (k - N)) /\
     HeapOK h (cells_gopt g) h' (cells_gopt g') /\
-    (hits k N -> out = Failed /\
-       abs_opt g' = if (nv <=? index) && (k =? 3) then add_value (abs_opt g) None else abs_opt g) /\
+    (hits k N -> out = Failed /\ abs_opt g' = abs_opt g) /\
     (~ hits k N -> out = Done tt /\
        abs_opt g' = if index <? nv then set_value (abs_opt g) index value
                     else add_value (abs_opt g) value).
@@ -180,8 +182,18 @@ Proof. exists inst_gcfg. exact inst_cfg_wf. Qed.
 Example enum_addval : map (inst_kind 1) (seq 0 11) = [D; F; F; D; D; D; D; D; D; D; D].
 Proof. vm_compute. reflexivity. Qed.
 
-(* 2: cfg_opt_setnstr(opt, "v", 0) on an option without values : realloc, calloc, strdup *)
+(* 2: cfg_opt_setnstr(opt, "v", 0) on an option without values : strdup, realloc, calloc *)
 Example enum_setnstr_new : map (inst_kind 2) (seq 0 11) = [D; F; F; F; D; D; D; D; D; D; D].
+Proof. vm_compute. reflexivity. Qed.
+
+(* 2, the three failing runs: no fresh block stays live except (k = 3, calloc of
+   cfg_addval failed) the moved pointer array at address 2, which the option owns;
+   the copy at address 1 has been freed again; nvalues is still 0 *)
+Example enum_setnstr_new_failed :
+  map (fun k => match run (cfg_opt_setnstr inst_opt (Some s_v) 0) inst_opt_heap k with
+                | Ok (o, Failed) s => Some (fresh_live inst_opt_heap (heap_of s), o_values o, o_nvalues o)
+                | _ => None end) [1; 2; 3]
+  = [Some ([], None, 0); Some ([], None, 0); Some ([2], Some 2, 0)].
 Proof. vm_compute. reflexivity. Qed.
 
 (* 21: cfg_opt_setnstr(opt, "v", 0) on an option that has value 0 : strdup only *)
